@@ -20,9 +20,12 @@ from pathlib import Path
 
 from vp.sched import scen as S
 
+EXTRA_PATCHES: list = []    # callables run once per process after patch() (extensions, e.g. store_ext)
+EXTRA_SNAPSHOT: list = []   # callables f(schd) -> dict merged into every snapshot
 REC: list = []           # the event trace of the current run
 _OWNER: dict = {}        # id(TaskState|TaskOutputs) -> (itask, keepalive)
 _PATCHED = False
+_EXTRA_DONE = False
 _CUR = {"msg": None}
 
 
@@ -482,6 +485,11 @@ def snapshot(schd):
         snap["store"] = sorted(store, key=lambda v: v[:2])
     except Exception as exc:
         snap["store"] = f"ERR {type(exc).__name__}: {exc}"
+    for f in EXTRA_SNAPSHOT:
+        try:
+            snap.update(f(schd))
+        except Exception as exc:   # noqa
+            snap[f"ERR_{getattr(f, '__name__', 'extra')}"] = f"{type(exc).__name__}: {exc}"
     return snap
 
 
@@ -574,6 +582,11 @@ class Session:
 async def run_scenario(scn: dict, home: Path) -> dict:
     """Run one scenario; returns {"trace": [...], "meta": {...}}."""
     patch()
+    global _EXTRA_DONE
+    if not _EXTRA_DONE:
+        _EXTRA_DONE = True
+        for f in EXTRA_PATCHES:
+            f()
     from cylc.flow.scheduler import Scheduler
     from cylc.flow.network.resolvers import TaskMsg
 
